@@ -879,3 +879,4 @@ def _r17_8(res, P, cfgname):
 
 LEVEL = LEVEL + ' Compile-fail witnesses (thorough): storage fields and tuple constructors are private, from_static_words is unsafe, &UBig -> &IBig hands out shared references only.'
 TECHNIQUE = 'unsafe-operation inventory from MIR + HIR with per-kind discharge rules: dominating capacity / len guards surviving release, who-may-construct / who-may-write tables, NonZero provenance, copy-count = guarded quantity, sign typestate of UBig constructions, allocation pairing incl. clone_from (leak, stale sign read); compile-fail witnesses'
+LEVEL = LEVEL + " (R17.5) the `len > 0` fact needed by pop_zeros / last-word reads is established by a forward must-dataflow that is killed by every write of len; (R17.8) every reallocation / deallocation inside a `&mut Buffer` method derives its Layout from the buffer's own stored capacity."
